@@ -58,6 +58,34 @@ pub fn main(tier: Tier, seed: u64) -> i32 {
         Ok(p) => cases.extend(p),
         Err(e) => rep.machinery(e),
     }
+    // several chunks of garbled gates: one circuit with more than 1000 AND gates; faults only in the
+    // second 'preprocessed gates' message (first and last gate of the chunk, each of the 4 rows)
+    let mut cfgs = cfgs;
+    {
+        let c = crate::circuits::and_chain(2, 1100);
+        let case = MpcCase { inputs: c.inputs_from_mask(0b11), circ: c, p_eval: 0, p_out: vec![0, 1], tmp_mask: 0 };
+        match make_config(case, 1, crate::campaign::tape_seed(seed, 3100), false) {
+            Ok(big) => {
+                let bi = cfgs.len();
+                cfgs.push(big);
+                match gen_cases(&cfgs[bi..], 2, false, &|l| l == "preprocessed gates", false) {
+                    Ok(cs) => {
+                        let mut seen = std::collections::HashSet::new();
+                        for mut c in cs {
+                            c.cfg = bi;
+                            let m = &cfgs[bi].honest.msgs[c.msgs[0]];
+                            let Some(path) = c.muts[0].path.clone() else { continue };
+                            if m.ord >= 1 && path.len() >= 2 && seen.insert(path) {
+                                cases.push(c);
+                            }
+                        }
+                    }
+                    Err(e) => rep.machinery(e),
+                }
+            }
+            Err(e) => rep.machinery(e),
+        }
+    }
     let j = judge_detection(&mut rep, &cfgs, &cases, "C03");
     // tap: the garbler garbles a wrong share bit into the rows of AND gate g (rows still decrypt)
     let mut tap_cases = vec![];
@@ -65,7 +93,8 @@ pub fn main(tier: Tier, seed: u64) -> i32 {
         if cfg.corrupted == cfg.case.p_eval {
             continue;
         }
-        for g in 0..cfg.case.circ.and_count() {
+        let ands = cfg.case.circ.and_count();
+        for g in (0..ands).filter(|g| ands <= 64 || [0, 999, 1000, ands - 1].contains(g)) {
             tap_cases.push((ci, g));
         }
     }
@@ -104,7 +133,7 @@ pub fn main(tier: Tier, seed: u64) -> i32 {
     rep.set("trivial_cases", json!(j.trivial));
     rep.set("tap_cases", json!(tap_cases.len()));
     rep.set("configurations", json!(cfgs.iter().map(|c| c.name.clone()).collect::<Vec<_>>()));
-    rep.rule = "online-phase messages of the corrupted party (wire shares, masked inputs, labels, preprocessed gates, output wire shares, lambda, broadcast echo): every field x position (quick: first/middle/last of long vectors) x {xor low bit, xor top bit, flip bool, Some->None; thorough adds set-zero/ones and every index}; n=3: to one recipient and consistently to all; plus the garbled-share tap per AND gate. Oracle: the honest consumer returns Err. trivial = unread by design (inactive row, label not feeding an AND gate) or an input substitution (consistent change of the own masked input); distinct = (configuration, label/field, recipients, position)".into();
+    rep.rule = "online-phase messages of the corrupted party (wire shares, masked inputs, labels, preprocessed gates, output wire shares, lambda, broadcast echo): every field x position (quick: first/middle/last of long vectors) x {xor low bit, xor top bit, flip bool, Some->None; thorough adds set-zero/ones and every index}; n=3: to one recipient and consistently to all; plus the garbled-share tap per AND gate; plus a 1100-AND circuit (two chunks of garbled gates) with faults in the second chunk's message and taps at gates 0, 999, 1000, 1099. Oracle: the honest consumer returns Err. trivial = unread by design (inactive row, label not feeding an AND gate) or an input substitution (consistent change of the own masked input); distinct = (configuration, label/field, recipients, position)".into();
     rep.assumptions = vec![
         "a tampered value is counted only if it differs from the honest one; random MAC/AEAD forgeries are treated as impossible".into(),
         "active garbled row determined by trial: tampering an inactive row leaves everything the honest parties send and return identical".into(),
